@@ -11,7 +11,7 @@ Tie obligations for RAW COPY: `ZipWriter::raw_copy_file_rename` / `raw_copy_file
                                `Model.writeDataList chunks`: one `writeData` per chunk the reader delivers
   sim_raw_copy_file_rename     Gen.ZipWriter.raw_copy_file_rename ~ Model.rawCopyChunks
                                (options built from the source entry: method, time, the `large_file` DECISION
-                               `compressed_size().max(size()) > ZIP64_BYTES_THR`, the whole `unix_mode()` as
+                               `compressed_size().max(size()) >= ZIP64_BYTES_THR`, the whole `unix_mode()` as
                                permissions (D15), no level, no encryption - whatever the wall clock `now` is;
                                the raw values crc32 / compressed / uncompressed size; `start_entry`; both flags;
                                the copy)
@@ -238,7 +238,7 @@ theorem tie_file_options_builders (o : Gen.FileOptions) (m : Gen.CompressionMeth
 
 /-- the `large_file` decision of the source, in the model's words -/
 theorem big_eq (cs us : UInt64) :
-    decide (max cs us > Gen.ZIP64_BYTES_THR) = decide ((if cs ≥ us then cs else us) > Model.ZIP64_BYTES_THR) := by
+    decide (max cs us ≥ Gen.ZIP64_BYTES_THR) = decide ((if cs ≥ us then cs else us) ≥ Model.ZIP64_BYTES_THR) := by
   have e : Gen.ZIP64_BYTES_THR = Model.ZIP64_BYTES_THR := rfl
   rw [e]
   by_cases h : cs ≤ us
@@ -326,14 +326,14 @@ theorem sim_raw_copy_file_rename (ext : Rs.S.Ext) (now : Gen.DateTime) (g : Gen.
   | none =>
     have := key { compression_method := file.data.compression_method, compression_level := none,
                   last_modified_time := file.data.last_modified_time, permissions := none,
-                  large_file := decide (max file.data.compressed_size file.data.uncompressed_size > Gen.ZIP64_BYTES_THR),
+                  large_file := decide (max file.data.compressed_size file.data.uncompressed_size ≥ Gen.ZIP64_BYTES_THR),
                   encrypt_with := none } rfl (by simp only [optOf, rawCopyOptions, hu, hbig, Option.map]; rfl)
     simp only [S.pure_bind_s]
     exact this
   | some mode =>
     have := key { compression_method := file.data.compression_method, compression_level := none,
                   last_modified_time := file.data.last_modified_time, permissions := some mode,
-                  large_file := decide (max file.data.compressed_size file.data.uncompressed_size > Gen.ZIP64_BYTES_THR),
+                  large_file := decide (max file.data.compressed_size file.data.uncompressed_size ≥ Gen.ZIP64_BYTES_THR),
                   encrypt_with := none } rfl (by simp only [optOf, rawCopyOptions, hu, hbig, Option.map]; rfl)
     simp only [S.pure_bind_s]
     exact this
